@@ -4,6 +4,8 @@
 def _loose(op):
     # the run's outcome depends on the schedule: a malformed line / scanner error / parent cancellation may be
     # seen before or after other batches
+    if op.split()[-1].startswith("t"):
+        return True     # cancelled from outside at a random moment
     for spec in op.split()[3:]:
         f = spec.split(":")
         if len(f) == 7 and (f[2] == "1" or f[3] != "-" or f[5] != "-"):
@@ -19,6 +21,8 @@ def _corr_skip(op, impl, model):
         if len(t) == 5 and len(m) == 2 and t[3] == m[1]:
             return t[0] == m[0] or (op.split()[2] == "oj" and op.split()[6] != "-" and t[0] == "stop")
         return False
+    if op.startswith("cli "):
+        return impl.split(" |", 1)[0] == model
     if not op.startswith("json "):
         return False
     # json ops: the model prints the summary of the canonical schedule; the implementation prints summary | trace.
@@ -33,6 +37,8 @@ def _nontrivial(op, out):
         return out.split()[0] in ("ok", "stop", "err") and "sent=0,0" not in out
     if op.startswith("race "):
         return out.startswith("norace")
+    if op.startswith("cli "):
+        return " wsent," in out
     return op.startswith("json ") and " wsent," in out
 
 
@@ -46,9 +52,10 @@ PROP = dict(
                        "Octo.C29.join_node_never_deadlocks", "Octo.C29.join_goroutines_end", "Octo.C29.join_unfixed_leaks",
                        "Octo.C29.join_full", "Octo.C29.join_unfixed_refuted", "Octo.C29.C29_full"],
     gen=["jsonpipe"],
+    needs_binary=True,
     nontrivial=_nontrivial,
     corr_skip=_corr_skip,
-    rule="three kinds of ops, all on the REAL code. (1) `json`: one run of 1-3 concurrent json.DatasourceExecuting.Run "
+    rule="four kinds of ops, all on the REAL code. (1) `json`: one run of 1-3 concurrent json.DatasourceExecuting.Run "
          "(obtained through json.Creator + Materialize) in a child process whose GOMAXPROCS (= size of the global parser "
          "pool) is 1 / 2 / 16, on generated files with 0,1,63,64,65,127,128,129,1000, ~8400 (more batches than tokens) and "
          "random row counts, seeded worker delays (verifJSONWorkerDelay hook), slow consumers, LIMIT-like early stops, "
@@ -62,8 +69,12 @@ PROP = dict(
          "returns (k-th output fails) and failing sources: Run must return, both producer goroutines must end, counts must "
          "respect the capacity. (3) `race`: 13 whole queries (joins of JSON files, LIKE / regexp in both join branches, stdin, "
          "LIMIT, ORDER BY, GROUP BY, malformed input) through a `go build -race` binary with GOMAXPROCS 1/2/4/16 — a SEARCH "
-         "only. non-trivial = a json run in which a worker delivered a batch / a join run that moved messages / a race run "
-         "that ended without a report",
+         "only. (4) `cli`: the same queries through the plain `-tags verif` binary with VERIF_JSON_TRACE: the pipeline hooks of "
+         "the whole engine (two or three datasources under joins sharing the pool, cancelled by the join when LIMIT is "
+         "reached) write their log to a file and the judge replays it on the model with the inputs inferred from the log "
+         "(it must be a path; the process may exit before the pipeline is drained). Also json ops whose parent context is "
+         "cancelled by a timer at a random moment. non-trivial = a json run in which a worker delivered a batch / a join run that moved messages / a race run "
+         "that ended without a report / a cli trace in which a worker delivered a batch",
     exhaustive=dict(quick=False, thorough=False),
     assumptions=["the statements are about the transition systems Octo.JsonPipe and Octo.JoinProto: goroutines interleave "
                  "at channel operations (sequentially consistent channel semantics); Go's memory model below that level is "
